@@ -425,6 +425,32 @@ type %[1]sIn2 struct {
 	Age  int
 }
 `, p)
+	if id%7 == 3 {
+		// struct settings that are only FLAGS, written on a pointer variant of the pair, while the plain pair is needed
+		// elsewhere (slice elements): they would be bypassed by the generated In -> Out method, so generation must fail
+		var b strings.Builder
+		b.WriteString("// goverter:converter\n// goverter:ignoreMissing\n// goverter:ignoreUnexported\n")
+		b.WriteString("type " + p + "C interface {\n")
+		flags := []string{"matchIgnoreCase", "ignoreMissing no", "ignoreUnexported no", "update:ignoreZeroValueField"}
+		n := 0
+		for _, fl := range flags {
+			if r.Chance(40) {
+				b.WriteString("\t// goverter:" + fl + "\n")
+				n++
+			}
+		}
+		if n == 0 {
+			b.WriteString("\t// goverter:matchIgnoreCase\n")
+		}
+		sig := rng.Pick(r, [][2]string{{"*" + p + "In", "*" + p + "Out"}, {"*" + p + "In", p + "Out"}, {p + "In", "*" + p + "Out"}})
+		b.WriteString("\tConvert(source " + sig[0] + ") " + sig[1] + "\n")
+		if r.Chance(80) {
+			b.WriteString("\tList(source []" + p + "In) []" + p + "Out\n")
+		}
+		b.WriteString("}\n\n")
+		f.add(p+"C", b.String())
+		return f
+	}
 	var b strings.Builder
 	b.WriteString("// goverter:converter\n")
 	// every 6th instance pins the combination ignoreMissing x matchIgnoreCase x ambiguous candidates (must be an error)
